@@ -142,9 +142,14 @@ Definition carry_kept (clb clbb : N) (a : answer) : Prop :=
   firstn (N.to_nat clbb) (full_bits a) = N_to_bits (N.to_nat clbb) clb.
 Definition carry_keptb (clb clbb : N) (a : answer) : bool :=
   beqb (firstn (N.to_nat clbb) (full_bits a)) (N_to_bits (N.to_nat clbb) clb).
-(* the partial last byte has no bits above its length; the last answer ends on a byte boundary *)
+(* the partial last byte(s) have no bits above their length - except that after a byte-aligned meta-block
+   (a_lbb = 0) the real encoder leaves stale bits in the SECOND byte of last_bytes_ (the low byte is 0): the
+   next writer ignores it (the back end restarts from byte 0, a padding seal is only written for a_lbb <> 0,
+   the metadata header writer masks the pending value to its first byte).  The last answer ends on a byte
+   boundary. *)
 Definition tail_clean (a : answer) : bool :=
-  (a_lb a <? 2 ^ a_lbb a) && (if a_is_last a then a_lbb a =? 0 else true).
+  (((a_lbb a =? 0) && (a_lb a mod 256 =? 0)) || (a_lb a <? 2 ^ a_lbb a))
+  && (if a_is_last a then a_lbb a =? 0 else true).
 (* output cursors are 32-bit (answer_ok2 of NoPanic_proofs, as a boolean) *)
 Definition size_ok (a : answer) : bool := lenN (a_out a) + 3 <? 2 ^ 32.
 
